@@ -284,6 +284,9 @@ class TcpConnection(object):
         if len(self.__readBuffer) < 4:
             return None
         l = struct.unpack('i', self.__readBuffer[:4])[0]
+        if l < 0:
+            self.disconnect()
+            return None
         if len(self.__readBuffer) - 4 < l:
             return None
         data = self.__readBuffer[4:4 + l]
@@ -294,7 +297,11 @@ class TcpConnection(object):
                 self.recvLastTimestamp = dataTimestamp
                 # Unfortunately we can't get a timestamp and data in one go
                 data = self.encryptor.decrypt(data)
-            message = pickle.loads(zlib.decompress(data))
+            decompressor = zlib.decompressobj()
+            rawData = decompressor.decompress(data)
+            if decompressor.unused_data or not getattr(decompressor, 'eof', True):
+                raise ValueError('frame is not exactly one compressed stream')
+            message = pickle.loads(rawData)
             if self.recvRandKey:
                 randKey, message = message
                 assert randKey == self.recvRandKey
